@@ -213,6 +213,57 @@ theorem diffiter_spec (xs : List Obj) : DiffIter.run xs = (diffs xs).map some :=
   rw [diffCollect_spec xs xs.length 0 (xs.length + 1) (by omega) (by omega)]
   simp [List.range_eq_range', Function.comp_def]
 
+/-- What a DiffIterator position presents is a function of the POSITION, not of how the iterator
+    was driven there.  For ALL lists and ALL scripts over the public operations of two iterator
+    objects `a`, `b` (dereference through `*` and `->`, pre-increment, `*a++`, `std::advance(a, 2)`,
+    copy `b = a`, assign back `a = b`, the same on the copy, comparison with the end and with each
+    other) run on the transcribed member state (m_prev, m_curr, m_next, m_end, mutable m_diff),
+    every output equals the output of the position-only specification `specRun`: a dereference at
+    position `i` presents exactly `diffAt xs i`, never reads outside the range, and the comparisons
+    say exactly whether the positions are the end / equal. -/
+theorem diffiter_presentation_depends_on_position_only (xs : List Obj) (ops : List DriveOp) :
+    drive xs ops = specRun xs ⟨0, 0⟩ ops :=
+  driveRun_spec xs ops _ _ (driveRep_init xs)
+
+/-- ... in particular: after ANY script `pre`, dereferencing `a` presents `diffAt` of the position
+    where `pre` left `a` (or is refused at the end), whatever `pre` did to get there. -/
+theorem diffiter_deref_after_any_script (xs : List Obj) (pre : List DriveOp) :
+    drive xs (pre ++ [.deref]) =
+      drive xs pre ++ [if (specPos xs ⟨0, 0⟩ pre).a < xs.length
+                       then .present (some (diffAt xs (specPos xs ⟨0, 0⟩ pre).a)) else .atEnd] := by
+  rw [diffiter_presentation_depends_on_position_only, diffiter_presentation_depends_on_position_only,
+    specRun_append]
+  congr 1
+  simp only [specRun, specStep, presentAt]
+  split <;> simp
+
+/-- non-vacuity: `while (it != end) use(*it++)` over a run of three versions of one node presents
+    v1 (first), v2 (middle, prev = v1), v3 (last); skipping (`++a; ++a; *a`), a copy advanced
+    separately, and looking twice give the same presentation of position 2 / 1. -/
+example :
+    drive [⟨1, 1, 1⟩, ⟨1, 1, 2⟩, ⟨1, 1, 3⟩] [.post, .post, .post, .cmpEnd] =
+      [.present (some ⟨0, 0, 1, true, false⟩), .present (some ⟨0, 1, 2, false, false⟩),
+       .present (some ⟨1, 2, 2, false, true⟩), .isEnd true] ∧
+    drive [⟨1, 1, 1⟩, ⟨1, 1, 2⟩, ⟨1, 1, 3⟩] [.inc, .inc, .deref, .deref] =
+      [.present (some ⟨1, 2, 2, false, true⟩), .present (some ⟨1, 2, 2, false, true⟩)] ∧
+    drive [⟨1, 1, 1⟩, ⟨1, 1, 2⟩, ⟨1, 1, 3⟩] [.copy, .incB, .derefB, .deref, .cmpAB, .adv2, .inc, .deref] =
+      [.present (some ⟨0, 1, 2, false, false⟩), .present (some ⟨0, 0, 1, true, false⟩), .equal false,
+       .atEnd] := by decide
+
+/-- The same for the type-filtering `ItemIterator<T>`: for ALL buffers and ALL scripts over the
+    operations of two iterator objects (without `a == b`, which is covered by the correspondence
+    check only), the iterator at position `i` presents the `i`-th item of a compatible type, is at
+    the end exactly after the last one, and never reads past the buffer. -/
+theorem itemiter_presentation_depends_on_position_only (c : FilterClass) (buf : List PItem)
+    (ops : List DriveOp) (hops : DriveOp.cmpAB ∉ ops) :
+    itemDrive c buf ops = fspecRun ((buf.filter fun p => compat c p.2.ty).map (·.1)) ⟨0, 0⟩ ops :=
+  itemRun_spec c _ ops hops _ _ (itemRep_init c buf) (itemRep_init c buf)
+
+example : DriveOp.cmpAB ∉ [DriveOp.post, .copy, .inc, .deref, .derefB, .postB, .cmpEnd] ∧
+    itemDrive .node [(0, ⟨.node, false⟩), (1, ⟨.tagList, false⟩), (2, ⟨.node, true⟩), (3, ⟨.way, false⟩)]
+      [.post, .copy, .inc, .deref, .derefB, .postB, .cmpEnd] =
+      [.item (some 0), .atEnd, .item (some 2), .item (some 2), .isEnd true] := by decide
+
 /-- every object version is presented exactly once, in order -/
 theorem diff_each_version_once (xs : List Obj) :
     (diffs xs).map (·.curr) = List.range xs.length := by
